@@ -163,7 +163,7 @@ impl DocFn for RunUnit<'_> {
     fn call<D: Doc>(self) {
         let RunUnit { ctx, unit, vi } = self;
         ctx.begin(unit, u64::MAX);
-        let Some(p) = prep_doc_need::<D>(ctx.seed, ID, vi, ctx.tier, Need::Stream) else {
+        let Some(p) = prep_doc_need::<D>(ctx.seed, ID, vi, ctx.tier, Need::StreamOnly) else {
             ctx.count("control_failures");
             return;
         };
@@ -222,7 +222,7 @@ struct CaseAt {
 impl DocFn for CaseAt {
     type Out = Option<Case>;
     fn call<D: Doc>(self) -> Option<Case> {
-        let p = prep_doc_need::<D>(self.seed, ID, self.vi, self.tier, Need::Stream)?;
+        let p = prep_doc_need::<D>(self.seed, ID, self.vi, self.tier, Need::StreamOnly)?;
         cases(self.seed, D::NAME, self.vi, p.b.len(), &boundaries_of(&p), self.tier).get(self.sub as usize).map(|(entry, k)| Case { doc: D::NAME.into(), vi: self.vi, entry: *entry, k: *k })
     }
 }
@@ -240,7 +240,7 @@ struct Replay<'a> {
 impl DocFn for Replay<'_> {
     type Out = Result<Option<Violation>, String>;
     fn call<D: Doc>(self) -> Self::Out {
-        let Some(p) = prep_doc_need::<D>(self.seed, ID, self.case.vi, self.tier, Need::Stream) else { return Err("the fault-free control run of this value fails".into()) };
+        let Some(p) = prep_doc_need::<D>(self.seed, ID, self.case.vi, self.tier, Need::StreamOnly) else { return Err("the fault-free control run of this value fails".into()) };
         Ok(exec(&p, self.case.entry, self.case.k, &self.scratch).err())
     }
 }
